@@ -1806,3 +1806,33 @@ Proof.
   split; [vm_compute; reflexivity|]. split; [vm_compute; reflexivity|]. split; [vm_compute; reflexivity|].
   split; intros []; vm_compute; reflexivity.
 Qed.
+
+(** * 12. Phase order on the error paths (no [ignore_errors]) *)
+
+(** an error is returned by the first phase that fails; nothing of a later phase is consulted:
+    a command-line error wins over everything, an environment error over defaults and validation,
+    a default-value error over validation *)
+Theorem phase_order_errors fuel' c toks st0 :
+  is_set s_ignore_errors c = false ->
+  (forall e s, cmdline_phase fuel' c toks st0 = RErr e s -> get_matches_with (S fuel') c toks st0 = RErr e s)
+  /\ (forall st_c e s, cmdline_phase fuel' c toks st0 = ROk st_c -> resolve_pending c st_c = RErr e s ->
+        get_matches_with (S fuel') c toks st0 = RErr e s)
+  /\ (forall st_c st1 e s, cmdline_phase fuel' c toks st0 = ROk st_c -> resolve_pending c st_c = ROk st1 ->
+        add_env c st1 = RErr e s -> get_matches_with (S fuel') c toks st0 = RErr e s)
+  /\ (forall st_c st1 st2 e s, cmdline_phase fuel' c toks st0 = ROk st_c -> resolve_pending c st_c = ROk st1 ->
+        add_env c st1 = ROk st2 -> add_defaults c st2 = RErr e s ->
+        get_matches_with (S fuel') c toks st0 = RErr e s)
+  /\ (forall st_c st1 st2 st3 k a, cmdline_phase fuel' c toks st0 = ROk st_c -> resolve_pending c st_c = ROk st1 ->
+        add_env c st1 = ROk st2 -> add_defaults c st2 = ROk st3 -> validate c (mt st2) = VErr k a ->
+        get_matches_with (S fuel') c toks st0 = RErr (mkerr c k a) st3).
+Proof.
+  intros Hig. rewrite get_matches_with_unfold. repeat split.
+  - intros e s H. rewrite H, Hig. reflexivity.
+  - intros st_c e s H1 H2. rewrite H1, H2. reflexivity.
+  - intros st_c st1 e s H1 H2 H3. rewrite H1, H2. cbn [rbind]. rewrite H3. reflexivity.
+  - intros st_c st1 st2 e s H1 H2 H3 H4. rewrite H1, H2. cbn [rbind]. rewrite H3. cbn [rbind]. rewrite H4. reflexivity.
+  - intros st_c st1 st2 st3 k a H1 H2 H3 H4 H5. rewrite H1, H2. cbn [rbind]. rewrite H3. cbn [rbind]. rewrite H4. cbn [rbind].
+    pose proof (resolve_pending_clears c st_c st1 H2) as P1.
+    destruct (add_env_frame c st1 st2 P1 H3) as [P2 _].
+    destruct (defaults_inert c st2 st3 P2 H4) as [Hv _]. rewrite Hv, H5. reflexivity.
+Qed.
